@@ -924,7 +924,11 @@ def check_algebra_line(corr, name, sig, ops, impl_line, crashed, detail):
     else:
         gr, gc, gx = r, c, x
     if (gr, gc) != (wr, wc) or gx != flat(want):
-        corr.fail(f"{name} {sig}: result differs from the mathematical definition", payload, site,
+        # the signature of known finding C15-symmat-product: a SymMat holding exactly the lower triangle of AB
+        lower_ok = (k == "S" and (gr, gc) == (wr, wc) and
+                    all(gx[i * gc + j] == W[i][j] for i in range(gr) for j in range(i + 1)))
+        corr.fail(f"{name} {sig}: result differs from the mathematical definition" +
+                  (" (lower triangle of the exact product, mirrored)" if lower_ok else ""), payload, site,
                   f"got {gr}x{gc} {[str(v) for v in gx][:16]} want {wr}x{wc} {[str(v) for v in flat(want)][:16]}")
 
 
@@ -1697,7 +1701,9 @@ def classify(ctx, failure):
             return None
         line = (failure.replay.get("ops") or [""])[0]
         if fid == "C15-symmat-product":
-            return fid if "differs from the mathematical definition" in what else None
+            # only the finding's own face: the lower triangle IS that of AB (symmat.h computes it correctly and mirrors it);
+            # any other wrong SymMat*SymMat answer is a new violation
+            return fid if "(lower triangle of the exact product, mirrored)" in what else None
         return fid
     return None
 
